@@ -11,6 +11,7 @@ from pytestarch.eval_structure.evaluable_architecture import (
     ModuleGroup,
     NotExplicitlyRequestedDependenciesByBaseModule,
 )
+from pytestarch.eval_structure.exceptions import LayerMismatch
 from pytestarch.eval_structure.module_name_converter import ModuleNameConverter
 from pytestarch.rule_assessment.error_message.message_generator import (
     LayerRuleViolationMessageGenerator,
@@ -228,14 +229,23 @@ class LayerRuleMatcher(RuleMatcher):
         layer_mapping: LayerMapping,
         module_name_conversion_mapping: dict[str, list[Module]],
     ) -> LayerMapping:
-        return LayerMapping(
-            {
-                layer: LayerRuleMatcher._replace_regex_specified_modules_with_actual_modules(
-                    layer, layer_mapping, module_name_conversion_mapping
-                )
-                for layer in layer_mapping.all_layers
-            }
-        )
+        modules_by_layer = {
+            layer: LayerRuleMatcher._replace_regex_specified_modules_with_actual_modules(
+                layer, layer_mapping, module_name_conversion_mapping
+            )
+            for layer in layer_mapping.all_layers
+        }
+
+        # which layer such a module belongs to would otherwise depend on the order in which the layers were defined
+        layer_by_module: dict[str, Layer] = {}
+        for layer, modules in modules_by_layer.items():
+            for module in modules:
+                if layer_by_module.setdefault(module.identifier, layer) != layer:
+                    raise LayerMismatch(
+                        f"Module {module.identifier} is assigned to more than one layer."
+                    )
+
+        return LayerMapping(modules_by_layer)
 
     @classmethod
     def _replace_regex_specified_modules_with_actual_modules(
